@@ -84,6 +84,7 @@ def handle3 (op : String) (a obs : List String) : Option Verdict :=
         ("x509_v3", get o 1 == "v3"),
         ("ecdsa_p256_key", get o 2 == "ec=true,p256=true"),
         ("exactly_the_requested_sans", ((get o 3).splitOn ",").length == (if sans.isEmpty then 1 else sans.length)),
+        ("sans_typed_as_dns_name_or_ip_address", s!"want={get o 3}" == get o 7),
         ("validity_as_requested", some (get o 4) == wantSecs.map (fun s => s!"secs={s}")),
         ("default_at_most_14_days", days != "default" || get o 4 == s!"secs={14 * 86400}"),
         ("valid_now", get o 5 == "valid_now=true" || days == "0"),
